@@ -87,7 +87,7 @@ def h_eliminable_counting(eng):
     eng.call_contracts["get_derivative"] = lambda eng, args, kw: dval
     delay_log = []
     model = M.new_model(eng, {"states": VList([vs]), "der_states": VList([ds]), "alg_states": VList([va, vb]), "equations": VList(list(eqs)),
-                                   "initial_equations": VList([E("opaque", value=z3.RealVal(7))]), "delay_arguments": VList([("d",)])})
+                                   "initial_equations": VList([E("opaque", value=z3.RealVal(7))]), "delay_arguments": VList([(E("opaque", value=z3.RealVal(5)), E("opaque", value=z3.RealVal(6)))])})
     model.cls.attrs["_substitute_delay_arguments"] = _delay_recorder(delay_log)
     opts = VDict([("eliminable_variable_expression", "_.*"), ("expand_mx", True)])
     eng.exec_fragment(MODEL, "Model._simplify_once", M.block_selector("eliminable_variable_expression"), {"self": model, "options": opts},
@@ -168,7 +168,7 @@ def h_alias_counting(eng):
     model = M.new_model(eng, {"states": VList([V["s"], V["s2"]]), "der_states": VList([V["der(s)"]]), "alg_states": VList([V["x"], V["y"], V["z"]]),
                                    "inputs": VList([]), "parameters": VList([V["p"]]), "constants": VList([]), "alias_relation": rel,
                                    "equations": VList(list(eqs)), "initial_equations": VList([E("opaque", value=z3.RealVal(7))]),
-                                   "delay_arguments": VList([("d",)])})
+                                   "delay_arguments": VList([(E("opaque", value=z3.RealVal(5)), E("opaque", value=z3.RealVal(6)))])})
     model.cls.attrs["_substitute_delay_arguments"] = _delay_recorder(delay_log)
     mm = eng.load_module(MODEL)
     opts = VDict([("detect_aliases", True), ("allow_derivative_aliases", allow_der), ("expand_vectors", False), ("expand_mx", False)])
@@ -243,7 +243,7 @@ def h_eliminable_counting_real(eng):
     eng.call_contracts["get_derivative"] = lambda eng, args, kw: E("opaque", value=z3.RealVal(99))
     delay_log = []
     model = M.new_model(eng, {"states": VList([vs]), "der_states": VList([ds]), "alg_states": VList([va, vb]), "equations": VList(list(eqs)),
-                                   "initial_equations": VList([E("opaque", value=z3.RealVal(7))]), "delay_arguments": VList([("d",)])})
+                                   "initial_equations": VList([E("opaque", value=z3.RealVal(7))]), "delay_arguments": VList([(E("opaque", value=z3.RealVal(5)), E("opaque", value=z3.RealVal(6)))])})
     model.cls.attrs["_substitute_delay_arguments"] = _delay_recorder(delay_log)
     opts = VDict([("eliminable_variable_expression", "_.*"), ("expand_mx", True)])
     try:
@@ -303,7 +303,7 @@ def h_eliminable_chain_resolution(eng):
     var = lambda t: VObj(VClass("Variable"), {"symbol": t, "value": float("nan")})
     model = M.new_model(eng, {"states": VList([var(x)]), "der_states": VList([var(user.deps[0])]), "alg_states": VList([var(h) for h in helpers]),
                               "parameters": VList([var(k)]), "equations": VList(list(eqs)), "initial_equations": VList([init]),
-                              "delay_arguments": VList([("d",)])})
+                              "delay_arguments": VList([(E("opaque", value=z3.RealVal(5)), E("opaque", value=z3.RealVal(6)))])})
 
     def rec(eng, selfobj, delay_arguments, symbols, values):
         delay_rec.append((list(eng.iterate(symbols)), list(eng.iterate(values))))
@@ -371,7 +371,7 @@ def h_replace_blocks(eng):
     eqs, ieqs = VList([E("opaque", value=z3.RealVal(1))]), VList([E("opaque", value=z3.RealVal(2))])
     delay_log, meta_log = [], []
     model = M.new_model(eng, {"parameters": VList(list(params)), "constants": VList(list(consts)), "equations": eqs, "initial_equations": ieqs,
-                                   "delay_arguments": VList([("d",)]), "alias_relation": VObj(VClass("AliasRelation"))})
+                                   "delay_arguments": VList([(E("opaque", value=z3.RealVal(5)), E("opaque", value=z3.RealVal(6)))]), "alias_relation": VObj(VClass("AliasRelation"))})
     model.cls.attrs["_substitute_delay_arguments"] = _delay_recorder(delay_log)
 
     def sm(eng, selfobj, symbols, values):
